@@ -220,7 +220,7 @@ static int MAXDIM = 2;
 static bool NARROW = false;   // narrow builder alphabet (deep phase A)
 static bool FOLLOW = false;   // apply follow-up builders to every transformer result (C02)
 static std::vector<int> FOLLOWUPS;   // indices into OPS
-static size_t CM3 = 0, GM3 = 0;   // first index of the dimension-3 entries (when MAXDIM >= 3)
+static size_t CM3 = 0, GM3 = 0, CM4 = 0, GM4 = 0;   // first index of the dimension-3 entries (when MAXDIM >= 3)
 static void build_menus() {
   using ref::EQ; using ref::GE; using ref::GT;
   CM = {
@@ -258,6 +258,21 @@ static void build_menus() {
     GM.insert(GM.end(), g3.begin(), g3.end());
     std::vector<LE> e3 = { LE({0, 0, 1}, 0), LE({1, 0, 1}, 0), LE({1, -1, 2}, 1), LE({0, 0, -1}, 0) };
     EM.insert(EM.end(), e3.begin(), e3.end());
+  }
+  CM4 = CM.size(); GM4 = GM.size();
+  if (MAXDIM >= 4) {
+    // dimension-4 entries: facets of [0,1]^4 and [-1,1]^4, a few diagonals (redundancy rules of simplify() that
+    // need >= 4 saturators, non-adjacent pairs on 2-faces)
+    std::vector<CN> c4 = {
+      CN(LE({0, 0, 0, 1}, 0), GE), CN(LE({0, 0, 0, -1}, 1), GE), CN(LE({-1, 0, 0, 0}, 1), GE), CN(LE({0, -1, 0, 0}, 1), GE),
+      CN(LE({0, 0, -1, 0}, 1), GE), CN(LE({0, 0, 1, 0}, 1), GE), CN(LE({0, 0, 0, 1}, 1), GE), CN(LE({1, 1, 0, 0}, 0), GE),
+      CN(LE({-1, -1, -1, -1}, 2), GE), CN(LE({1, 0, 0, -1}, 0), GE), CN(LE({0, 0, 1, -1}, 0), EQ), CN(LE({0, 0, 0, 1}, 0), GT),
+    };
+    CM.insert(CM.end(), c4.begin(), c4.end());
+    std::vector<GN> g4 = { GN('p', {1, 1, 1, 1}), GN('p', {0, 0, 0, 1}), GN('r', {0, 0, 0, 1}), GN('l', {0, 0, 1, 1}), GN('p', {1, 0, 1, 0}, 2) };
+    GM.insert(GM.end(), g4.begin(), g4.end());
+    std::vector<LE> e4 = { LE({0, 0, 0, 1}, 0), LE({1, 1, 1, 1}, 0), LE({1, 0, -1, 2}, 1) };
+    EM.insert(EM.end(), e4.begin(), e4.end());
   }
 }
 
@@ -334,6 +349,15 @@ static void build_ops() {
       // orthant, upper box faces, slab + simplex face, strict corner, plane + half-space
       pairs.push_back({0, 1, c + 0}); pairs.push_back({2, 3, c + 1}); pairs.push_back({c + 0, c + 1, c + 2});
       pairs.push_back({13, c + 7, c + 8}); pairs.push_back({c + 5, c + 4});
+    }
+    if (MAXDIM >= 4) {
+      int c3 = (int)CM3, c = (int)CM4;
+      pairs.push_back({0, 1, c3 + 0, c + 0});                 // orthant
+      pairs.push_back({c + 2, c + 3, c + 4, c + 1});          // A,B,C,D <= 1
+      pairs.push_back({c + 7, c + 2, c + 3});                 // A+B >= 0, A <= 1, B <= 1
+      pairs.push_back({c + 5, c + 4, c + 6, c + 1});          // -1 <= C <= 1, -1 <= D <= 1
+      pairs.push_back({c3 + 0, c + 0});                       // C >= 0, D >= 0
+      pairs.push_back({0, 1});                                // A >= 0, B >= 0
     }
     for (auto& pr : pairs) {
       std::vector<CN> cl; for (int i : pr) cl.push_back(CM[i]);
@@ -429,7 +453,18 @@ static void build_ops() {
                                  "add_constraint(" + CM[8].str() + ")", "add_generator(" + GM[6].str() + ")" };
     for (size_t i = 0; i < OPS.size(); ++i) if (OPS[i].builder && fn.count(OPS[i].name)) FOLLOWUPS.push_back((int)i);
   }
-  if (NARROW) {
+  if (NARROW && MAXDIM >= 4) {
+    // dimension 4: systems that build (and cut) cubes in a few steps, a few single rows and generators, observers
+    std::set<std::string> keep;
+    int c3 = (int)CM3, c = (int)CM4, g = (int)GM4;
+    auto sys = [&](std::vector<int> v) { std::string nm = "add_constraints({"; for (size_t i = 0; i < v.size(); ++i) { if (i) nm += ","; nm += CM[v[i]].str(); } return nm + "})"; };
+    keep.insert(sys({0, 1, c3 + 0, c + 0})); keep.insert(sys({c + 2, c + 3, c + 4, c + 1})); keep.insert(sys({c + 7, c + 2, c + 3}));
+    keep.insert(sys({c + 5, c + 4, c + 6, c + 1})); keep.insert(sys({c3 + 0, c + 0})); keep.insert(sys({0, 1}));
+    for (int i : {c + 8, c + 9, c + 10, c + 7, 0}) keep.insert("add_constraint(" + CM[i].str() + ")");
+    for (int i : {0, g + 0, g + 2, g + 3}) keep.insert("add_generator(" + GM[i].str() + ")");
+    for (size_t i = 0; i < OPS.size(); ++i) if (OPS[i].builder && !OPS[i].observer && !keep.count(OPS[i].name)) OPS[i].builder = false;
+  }
+  else if (NARROW) {
     // deep phase A over a narrow alphabet: a few constraints and generators of each kind, two systems, all observers
     std::set<std::string> keep;
     for (int i : {0, 3, 4, 8, 13}) keep.insert("add_constraint(" + CM[i].str() + ")");
@@ -1486,6 +1521,13 @@ int main(int argc, char** argv) {
   build_menus();
   build_ops();
   if (MODE == "C01") build_queries();
+  if (ARGS.has("--light")) {
+    // dimension 4: keep the descriptions, the unary predicates and the binary comparisons; the parametrised
+    // queries (relations, bounds, optima, frequencies) are covered in dimensions <= 3 and their oracle is slow here
+    std::vector<Query> keep;
+    for (size_t i = 0; i < QS.size(); ++i) if (QS[i].name.find('(') == std::string::npos || QS[i].name.find("congruences()") != std::string::npos) keep.push_back(QS[i]);
+    QS.swap(keep);
+  }
   double t0 = now_s();
   phase_a(depth, min_dim, max_dim);
   double ta = now_s() - t0;
